@@ -251,13 +251,16 @@ def run(ctx):
                                  "impl": None if impl_types is None else [info.nid[x.name] for x in impl_types]})
                     metas.append(("fill", replay, impl_types is not None))
                 # ---- find_wrapping
-                for target in rng.sample(types, min(len(types), ctx.budget(3, 6))):
+                def ask_wrap(target, again=None):
                     st, chain = outcome(lambda: m.find_wrapping(target))
                     replay = {"schema": info.name, "type": t.name, "content": t.spec.get("content"), "state": qi, "target": target.name}
+                    if again is not None:
+                        replay["asked_before_on_this_state"] = again
+                        ctx.count("wrap:asked-again")
                     ctx.case(["wrap", info.name, t.name, qi, target.name], sample={"op": "find_wrapping", **replay})
                     if st != "ok":
                         ctx.violation("wrap-raises", f"find_wrapping raised {chain}", replay)
-                        continue
+                        return
                     ctx.count("wrap:" + ("none" if chain is None else "len%d" % len(chain)))
                     if chain is not None:
                         if not is_chain(m, target, chain):
@@ -272,6 +275,14 @@ def run(ctx):
                     reqs.append({"op": "wrap", "s": info.lean_id, "ty": info.nid[t.name], "q": qi, "target": info.nid[target.name],
                                  "impl": None if chain is None else [info.nid[x.name] for x in chain]})
                     metas.append(("wrap", replay, None if chain is None else [info.nid[x.name] for x in chain]))
+                asked = rng.sample(types, min(len(types), ctx.budget(3, 6)))
+                for target in asked:
+                    ask_wrap(target)
+                # the same questions once more on the same state object, after other targets were asked (answers are remembered
+                # per state: a remembered answer must still be a sound, shortest answer to *this* target — same oracles, same tie)
+                if rng.random() < 0.5:
+                    for target in rng.sample(asked, min(2, len(asked))):
+                        ask_wrap(target, again=[x.name for x in asked])
             # ---- create_and_fill
             for content in cf_contents(rng, schema, frags) + cf_partial_contents(rng, docs, t):
               attrs = gen.gen_attrs(rng, t) if (t.has_required_attrs() or rng.random() < 0.3) else None
